@@ -16,7 +16,7 @@ BIC = "cluster_metrics.bayesian_information_criterion"
 
 def _parts(ana):
     fi = ana.func(BIC)
-    b = ana.builder(fi, no_inline=lambda f: True)
+    b = ana.builder(fi, no_inline=ana.known)
     rt = b.return_term()
     m = Sym(fi.params[0])
     return fi, b, rt, m
@@ -97,7 +97,7 @@ def r2(ctx):
         ok = isinstance(v, App) and v.fn in ("numpy.sum", "numpy.count_nonzero") and len(v.args) == 1 and v.args[0] == want and not v.kw
         ctx.check(ok, fi, "count of |Theta_k| > 2e-5 (strict) over the MRF of the cluster the count is stored for", line=s.stmt.lineno,
                   role="param-count", expected=f"numpy.sum({want})", found=str(v)[:160])
-        rng = b.loop_range(s.loops[-1]) if isinstance(s.loops[-1], ast.For) else None
+        rng = s.loop_ranges[-1]
         K1 = Attr(Attr(m, "arguments"), "num_clusters")
         ctx.check(rng in (Range(0, K1), Range(0, tm.length(Attr(m, "clusters")))) and k == Sym(s.loops[-1].target.id), fi,
                   "a count is stored for every cluster id", line=s.stmt.lineno, role="param-count:range", expected=str(Range(0, K1)), found=str(rng))
